@@ -237,6 +237,50 @@ def run_one(prog, inputs, xtext=None, want_monitor=False, want_hexsim=True, step
         shutil.rmtree(d, ignore_errors=True)
 
 
+def model_share(prog, src):
+    """is the judged program inside the model's fragment (extracted model_compile with the peephole pass returns an image),
+    and is that image the real binary?  Frame sizes and the constant pool are read off `xcmp -S`; nslots and the outgoing
+    words are set to the frame size (they only bound what the model accepts).  -> 'outside' | 'identical' | 'differs' | None"""
+    import re
+    d = tempfile.mkdtemp(dir=_SCR)
+    try:
+        open(os.path.join(d, 'p.x'), 'wb').write(src)
+        open(os.path.join(d, 'p.sx'), 'w').write(xcommon.to_sx(prog))
+        st, detail = xcommon.compile_x(_T.xcmp, d, 'p.x')
+        rc, out, err = xcommon._run([_T.xcmp, 'p.x', '-S'], d, timeout=60)
+        if st != 'ok' or rc != 0:
+            return None
+        text = out.decode('latin-1')
+        ins = listing_instrs(text)
+        frames = []
+        for pr in prog['procs']:
+            try:
+                code, size = listing_proc(ins, pr['kind'], pr['name'])
+            except (ValueError, StopIteration):
+                return None
+            frames.append('%s %d %d %d' % (pr['name'], size, size, max(size, 16)))
+        poolv = []
+        lines_ = text.split('\n')
+        for q, ln in enumerate(lines_):
+            if re.match(r'^(?:0x)?[0-9a-fA-F]+\s+_const\d+\s', ln) and q + 1 < len(lines_):
+                m2 = re.match(r'^(?:0x)?[0-9a-fA-F]+\s+DATA\s+(-?\d+)', lines_[q + 1])
+                if m2:
+                    v = int(m2.group(1))
+                    poolv.append(v - (1 << 32) if v >= (1 << 31) else v)
+        fr = ('\n'.join(frames) + '\n' + 'pool ' + ' '.join(str(v) for v in poolv) + '\n').encode()
+        rc, out1, err = xcommon._run([_T.hv, 'xmc', 'p.sx', '1'], d, fr, 60)
+        mo = out1.decode().strip()
+        if rc != 0 or not mo:
+            return None
+        if mo in ('none', 'front-error'):
+            return 'outside'
+        return 'identical' if [int(x) for x in mo.split()] == aout_words(os.path.join(d, 'a.out')) else 'differs'
+    except Exception:
+        return None
+    finally:
+        shutil.rmtree(d, ignore_errors=True)
+
+
 def job(arg):
     """arg = ('gen', seed) | ('src', name, xtext(bytes), inputs, steps, depth)"""
     try:
@@ -261,6 +305,9 @@ def job(arg):
             import xfrontcommon
             if xfrontcommon.reader_sampled(arg):
                 out['xfront'] = xfrontcommon.reader_crosscheck(_T.hv, src, xcommon.to_sx(prog))
+        # a sample of the judged programs: is the program inside the proved model's fragment, and does the model then give the real image
+        if r['welldef'] and not r['broken'] and ((arg[0] == 'gen' and arg[1] % 6 == 0) or arg[0] != 'gen'):
+            out['model_share'] = model_share(prog, src)
         if not r['findings']:
             out['spec'] = (r['spec'] or [])[:1]
             out['isa'] = (r['isa'] or [])[:1]
@@ -589,36 +636,323 @@ def frag_stmt(rng, depth):
     return ('seq', [frag_stmt(rng, depth - 1) for _ in range(rng.randint(1, 4))])
 
 
+# ---------------------------------------------------------------- whole fragment programs for the two ties
+# several generated procedures and functions that call each other (and themselves, with a decreasing counter), 0..4
+# formals mixing val and array, 0..20 locals (frame offsets that need prefixed operands), random global declaration lists
+# (vals between vars, 1..4 arrays of length 1..40, occasionally one large array), constants from the corner set; bodies are
+# built so that most runs are well-defined in XSem (variables initialised, subscripts mostly in range, bounded loops)
+FG_CORNERS = [0, 1, 2, 3, 7, 15, 16, 17, 255, 256, 257, 4095, 4096, 65535, 65536, 65537, 70000, 1000000, (1 << 30), (1 << 31) - 2, (1 << 31) - 1]
+
+
+class FgEnv:
+    def __init__(self):
+        self.vars = []        # readable integer variables (initialised)
+        self.assign = []      # assignable ones
+        self.arrs = []        # (name, known length) arrays in scope
+        self.funcs = []       # callable functions {'name', 'formals'}
+        self.procs = []       # callable procedures
+        self.loopvar = None   # a local reserved as the counter of bounded loops
+        self.in_loop = False
+        self.vals = []        # global val names (constants)
+
+
+def fg_const(rng, small=False):
+    r = rng.random()
+    if small or r < 0.55:
+        return ('num', rng.choice([0, 0, 1, 1, 2, 3, 5, 7, 9]))
+    if r < 0.85:
+        v = rng.choice(FG_CORNERS)
+    elif r < 0.93:
+        v = -rng.choice(FG_CORNERS + [1 << 31])
+    else:
+        v = rng.randrange(-(1 << 31), 1 << 31)
+    if v >= 0:
+        return ('num', v)
+    return ('num', v % (1 << 32)) if rng.random() < 0.7 else ('neg', ('num', -v))
+
+
+def fg_simple(rng, env):
+    r = rng.random()
+    if r < 0.5 and env.vars:
+        return ('var', rng.choice(env.vars))
+    if r < 0.6 and env.vals:
+        return ('var', rng.choice(env.vals))
+    return fg_const(rng, rng.random() < 0.6)
+
+
+def fg_index(rng, env, a, n):
+    r = rng.random()
+    if r < 0.75 or not env.vars:
+        return ('num', rng.randrange(min(n, 40)))
+    if r < 0.9:
+        return ('bin', '-', ('num', rng.randrange(min(n, 40)) + 3), ('num', 3))
+    return fg_expr(rng, env, 1)
+
+
+def fg_expr(rng, env, depth, want='int'):
+    """a call-free expression of the fragment"""
+    r = rng.random()
+    if want == 'bool':
+        if depth <= 0 or r < 0.2:
+            return rng.choice([('true',), ('false',), ('bin', '<', fg_simple(rng, env), fg_const(rng, True))])
+        if r < 0.65:
+            op = rng.choice(['=', '~=', '<', '<=', '>', '>='])
+            l, rr = fg_expr(rng, env, depth - 1), fg_expr(rng, env, depth - 1 if rng.random() < 0.4 else 0)
+            if rng.random() < 0.25:
+                rr = ('num', 0)
+            if rng.random() < 0.1:
+                l = ('num', 0)
+            return ('bin', op, l, rr)
+        if r < 0.87:
+            return ('bin', rng.choice(['and', 'or']), fg_expr(rng, env, depth - 1, 'bool'), fg_expr(rng, env, depth - 1, 'bool'))
+        return ('not', fg_expr(rng, env, depth - 1, 'bool'))
+    if depth <= 0 or r < 0.2:
+        r = rng.random()
+        if r < 0.15 and env.arrs:
+            a, n = rng.choice(env.arrs)
+            return ('sub', a, ('num', rng.randrange(min(n, 40))))
+        return fg_simple(rng, env)
+    if r < 0.3 and env.arrs:
+        a, n = rng.choice(env.arrs)
+        return ('sub', a, fg_index(rng, env, a, n))
+    if r < 0.8:
+        return ('bin', rng.choice(['+', '-']), fg_expr(rng, env, depth - 1), fg_expr(rng, env, depth - 1 if rng.random() < 0.45 else 0))
+    if r < 0.87:
+        return ('neg', fg_expr(rng, env, depth - 1))
+    return fg_expr(rng, env, depth - 1, 'bool')
+
+
+def fg_actuals(rng, env, callee, selfdepth=None, first=None):
+    """actuals for the callee: call-free expressions for val formals (small constants for a recursion depth), names of
+    arrays in scope for array formals; `first`: an expression to use as the first actual (then the others are simple)"""
+    acts = []
+    for q, f in enumerate(callee['formals']):
+        if f[0] == 'array':
+            acts.append(('var', rng.choice(env.arrs)[0]))
+        elif callee['name'] in ('ha', 'ka'):
+            acts.append(('num', 0))
+        elif q == 0 and first is not None:
+            acts.append(first)
+        elif q == 0 and callee.get('rec'):
+            acts.append(selfdepth if selfdepth is not None else ('num', rng.choice([0, 1, 2, 3])))
+        elif first is not None:
+            acts.append(fg_simple(rng, env))
+        else:
+            acts.append(fg_expr(rng, env, rng.randint(0, 2), rng.choice(['int', 'int', 'int', 'bool'])))
+    return acts
+
+
+def fg_callable(env, lst):
+    return [c for c in lst if all(f[0] != 'array' for f in c['formals']) or env.arrs]
+
+
+def fg_lcall(rng, env, depth, want='int'):
+    """a call of a function (call-free actuals) or get at the bottom of the left spine, simple right operands"""
+    fs = fg_callable(env, env.funcs)
+    if fs and rng.random() < 0.7:
+        f = rng.choice(fs)
+        e = ('call', f['name'], fg_actuals(rng, env, f))
+    else:
+        e = rng.choice([('call', 'get', [('num', 0)]), ('sys', 2, [('num', 0)])])
+    for _ in range(rng.randint(1, max(1, depth)) if depth > 0 else 0):
+        if rng.random() < 0.55:
+            e = ('bin', rng.choice(['+', '-']), e, fg_simple(rng, env))
+        else:
+            r = fg_simple(rng, env) if rng.random() < 0.7 else ('num', 0)
+            e = ('bin', rng.choice(['=', '<', '~=', '>=', '=', '<']), e, r)
+            if rng.random() < 0.2:
+                e = ('not', e)
+    if want == 'bool' and not (e[0] == 'not' or (e[0] == 'bin' and e[1] in ('=', '<', '~=', '>='))):
+        e = ('bin', rng.choice(['=', '<', '~=']), e, fg_simple(rng, env))
+    return e
+
+
+def fg_stmt(rng, env, depth):
+    r = rng.random()
+    if depth <= 0 or r < 0.4:
+        r = rng.random()
+        if r < 0.3 and env.assign:
+            return ('assign', rng.choice(env.assign), fg_expr(rng, env, rng.randint(0, 3), rng.choice(['int', 'int', 'int', 'bool'])))
+        if r < 0.42 and env.arrs:
+            a, n = rng.choice(env.arrs)
+            return ('assignsub', a, fg_index(rng, env, a, n), fg_expr(rng, env, rng.randint(0, 2), rng.choice(['int', 'int', 'bool'])))
+        if r < 0.52:
+            e = [fg_expr(rng, env, rng.randint(0, 2)), rng.choice([('num', 0), ('num', 0), ('num', 0), fg_simple(rng, env)])]
+            if rng.random() < 0.3:
+                e = [fg_lcall(rng, env, rng.randint(0, 2)), ('num', 0)]
+            return ('call', 'put', e) if rng.random() < 0.5 else ('sys', 1, e)
+        if r < 0.68:
+            ps = fg_callable(env, env.procs)
+            if ps:
+                c = rng.choice(ps)
+                nval = [f for f in c['formals'] if f[0] == 'val']
+                if c['formals'] and c['formals'][0][0] == 'val' and not c.get('rec') and rng.random() < 0.3:
+                    return ('call', c['name'], fg_actuals(rng, env, c, first=fg_lcall(rng, env, rng.randint(0, 2))))
+                return ('call', c['name'], fg_actuals(rng, env, c))
+        if r < 0.82 and env.assign:
+            x = rng.choice(env.assign)
+            q = rng.random()
+            fs = fg_callable(env, env.funcs)
+            if q < 0.4 and fs:
+                f = rng.choice(fs)
+                return ('assign', x, ('call', f['name'], fg_actuals(rng, env, f)))
+            if q < 0.6:
+                return ('assign', x, rng.choice([('call', 'get', [('num', 0)]), ('sys', 2, [('num', 0)])]))
+            return ('assign', x, fg_lcall(rng, env, rng.randint(1, 3)))
+        if r < 0.86:
+            return ('sys', 0, [fg_expr(rng, env, rng.randint(0, 1))]) if rng.random() < 0.5 else ('stop',)
+        if r < 0.93 and env.assign:
+            return ('assign', rng.choice(env.assign), fg_expr(rng, env, 1))
+        return ('skip',)
+    if r < 0.62:
+        t = fg_stmt(rng, env, depth - 1) if rng.random() < 0.85 else ('skip',)
+        e = fg_stmt(rng, env, depth - 1) if rng.random() < 0.6 else ('skip',)
+        c = fg_lcall(rng, env, rng.randint(1, 2), 'bool') if rng.random() < 0.2 and (t != ('skip',) or e != ('skip',)) else fg_expr(rng, env, rng.randint(0, 2), 'bool')
+        return ('if', c, t, e)
+    if r < 0.8:
+        q = rng.random()
+        if q < 0.6 and env.loopvar and not env.in_loop:
+            # a bounded loop on the reserved counter
+            env.in_loop = True
+            b = fg_stmt(rng, env, depth - 1)
+            env.in_loop = False
+            k = rng.randint(1, 4)
+            lv = env.loopvar
+            return ('seq', [('assign', lv, ('num', 0)),
+                            ('while', ('bin', '<', ('var', lv), ('num', k)), ('seq', [b, ('assign', lv, ('bin', '+', ('var', lv), ('num', 1)))]))])
+        if q < 0.8:
+            # read the console to its end
+            return ('while', rng.choice([('not', ('bin', '=', ('call', 'get', [('num', 0)]), ('num', 255))), ('bin', '<', ('call', 'get', [('num', 0)]), ('num', 255)),
+                                         ('bin', '~=', ('sys', 2, [('num', 0)]), ('num', 255))]),
+                    fg_stmt(rng, env, 0) if not env.in_loop else ('skip',))
+        if q < 0.9:
+            return ('while', ('false',) if rng.random() < 0.5 else ('bin', '<', fg_simple(rng, env), ('num', 0)), fg_stmt(rng, env, depth - 1))
+        return ('while', fg_expr(rng, env, rng.randint(0, 2), 'bool'), fg_stmt(rng, env, depth - 1))
+    return ('seq', [fg_stmt(rng, env, depth - 1) for _ in range(rng.randint(1, 4))])
+
+
+def frag_program(rng):
+    """-> (program, the generated procedures)"""
+    genv = FgEnv()
+    glob = [('val', 'put', ('num', 1)), ('val', 'get', ('num', 2))]
+    decls = []
+    gvars = ['g%d' % k for k in range(rng.randint(1, 4))]
+    decls += [('var', g) for g in gvars]
+    arrs = [('a%d' % k, rng.choice([1, 1, 2, 3, 4, 8, 13, 40, rng.randint(1, 40)])) for k in range(rng.randint(1, 4))]
+    if rng.random() < 0.15:
+        arrs.append(('big', rng.choice([1000, 5000, 60000, 150000])))
+    decls += [('array', a, ('num', n)) for a, n in arrs]
+    nval = rng.choice([0, 0, 1, 2])
+    vals = []
+    for k in range(nval):
+        c = fg_const(rng)
+        if c[0] == 'num':
+            vals.append('v%d' % k)
+            decls.append(('val', 'v%d' % k, c))
+    rng.shuffle(decls)
+    glob += decls
+    genv.vars = list(gvars); genv.assign = list(gvars); genv.arrs = list(arrs); genv.vals = list(vals)
+    helpers = [dict(h) for h in FRAG_HELPERS]
+    genv.funcs = [h for h in helpers if h['kind'] == 'func']
+    genv.procs = [h for h in helpers if h['kind'] == 'proc']
+    gen = []
+    for i in range(rng.randint(2, 5)):
+        kind = rng.choice(['func', 'proc', 'proc'])
+        name = 'f%d' % i
+        nform = rng.choice([0, 1, 2, 2, 3, 4])
+        forms = [(rng.choice(['val', 'val', 'array']), None) for _ in range(nform)]
+        forms = [(k, ('p%d' % q) if k == 'val' else ('b%d' % q)) for q, (k, _) in enumerate(forms)]
+        rec = bool(forms) and forms[0][0] == 'val' and rng.random() < 0.4
+        nloc = rng.choice([0, 1, 2, 3, 5, 8, 12, 20])
+        locs = ['l%d' % q for q in range(nloc)]
+        env = FgEnv()
+        env.vals = list(vals)
+        env.vars = gvars + [n for k, n in forms if k == 'val'] + locs
+        env.assign = [v for v in env.vars if not (rec and v == forms[0][1])]
+        env.arrs = arrs + [(n, 1) for k, n in forms if k == 'array']
+        env.funcs = list(genv.funcs); env.procs = list(genv.procs)
+        if locs and rng.random() < 0.7:
+            env.loopvar = locs[-1]
+            env.vars = [v for v in env.vars if v != locs[-1]]
+            env.assign = [v for v in env.assign if v != locs[-1]]
+        me = {'kind': kind, 'name': name, 'formals': forms, 'rec': rec}
+        init = [('assign', l, fg_const(rng, True)) for l in locs]
+        body = [fg_stmt(rng, env, rng.randint(0, 3)) for _ in range(rng.randint(1, 4))]
+        if rec:
+            d = forms[0][1]
+            selfcall = ('call', name, fg_actuals(rng, env, me, selfdepth=('bin', '-', ('var', d), ('num', 1))))
+            if kind == 'func':
+                step = rng.choice([('return', selfcall), ('return', ('bin', '+', selfcall, fg_simple(rng, env))),
+                                   ('seq', [('assign', rng.choice(env.assign), selfcall), ('return', fg_expr(rng, env, 1))]) if env.assign else ('return', selfcall)])
+                base = ('return', fg_expr(rng, env, 1))
+            else:
+                step = selfcall
+                base = rng.choice([('skip',), fg_stmt(rng, env, 0)])
+            body = [('if', ('bin', '<', ('var', d), ('num', 1)), base, ('seq', body + [step]))]
+        if kind == 'func':
+            body.append(('return', fg_expr(rng, env, rng.randint(0, 3), rng.choice(['int', 'int', 'bool']))))
+        pr = {'kind': kind, 'name': name, 'formals': forms, 'locals': [('var', l) for l in locs], 'body': ('seq', init + body)}
+        gen.append(pr)
+        (genv.funcs if kind == 'func' else genv.procs).append(me)
+    # main: initialise the globals and the arrays, call every generated procedure, echo one byte
+    menv = FgEnv()
+    menv.vars = list(gvars); menv.assign = list(gvars); menv.arrs = list(arrs); menv.vals = list(vals)
+    menv.funcs = list(genv.funcs); menv.procs = list(genv.procs)
+    mb = [('assign', g, fg_const(rng, True)) for g in gvars]
+    for a, n in arrs:
+        k = min(n, 40)
+        mb.append(('seq', [('assign', gvars[0], ('num', 0)),
+                           ('while', ('bin', '<', ('var', gvars[0]), ('num', k)),
+                            ('seq', [('assignsub', a, ('var', gvars[0]), ('bin', '+', ('var', gvars[0]), ('num', rng.randint(0, 5)))),
+                                     ('assign', gvars[0], ('bin', '+', ('var', gvars[0]), ('num', 1)))]))]))
+    mb.append(('assign', gvars[0], fg_const(rng, True)))
+    for pr in gen:
+        me = {'kind': pr['kind'], 'name': pr['name'], 'formals': pr['formals'], 'rec': any(c['name'] == pr['name'] and c.get('rec') for c in genv.funcs + genv.procs)}
+        acts = fg_actuals(rng, menv, me)
+        mb.append(('assign', rng.choice(gvars), ('call', pr['name'], acts)) if pr['kind'] == 'func' else ('call', pr['name'], acts))
+    mb += [('sys', 1, [('bin', '+', ('var', gvars[0]), ('num', 48)), ('num', 0)]),
+           ('assign', gvars[-1], ('call', 'get', [('num', 0)])), ('sys', 1, [('var', gvars[-1]), ('num', 0)])]
+    main = {'kind': 'proc', 'name': 'main', 'formals': [], 'locals': [], 'body': ('seq', mb)}
+    procs = gen + helpers + [main]
+    if rng.random() < 0.3:
+        rng.shuffle(procs)
+    return {'globals': glob, 'procs': procs}, gen
+
+
+def listing_proc(ins, kind, name):
+    """(instructions of the procedure in an `xcmp -S` listing, its frame size)"""
+    k = ins.index(('FUNC' if kind == 'func' else 'PROC', name))
+    size = 0
+    if ins[k + 1:k + 3] == [('LDBM', 1), ('STAI', 0)] and ins[k + 3][0] == 'LDAC' and ins[k + 4] == ('ADD', None) and ins[k + 5] == ('STAM', 1) and ins[k + 3][1] < 0:
+        size = -ins[k + 3][1]
+    end = next(q for q in range(k + 1, len(ins)) if ins[q][0] in ('PROC', 'FUNC') or str(ins[q][1]).startswith('PADDING') or ins[q][0] == 'PADDING')
+    return [x for x in ins[k + 1:end] if x[0] != ''], size
+
+
+def has_many_actuals(e):
+    if isinstance(e, tuple):
+        if e[0] == 'call' and isinstance(e[2], list) and (len(e[2]) >= 3 or sum(1 for x in e[2] if x[0] == 'var' and (x[1].startswith('a') or x[1].startswith('b') or x[1] == 'big')) >= 2):
+            return True
+        return any(has_many_actuals(x) for x in e[1:])
+    if isinstance(e, list):
+        return any(has_many_actuals(x) for x in e)
+    return False
+
+
 def fragment_tie(ck, tools, scr, n):
     """the extracted model (XConstProp.front, then XCodegenStmt.cproc: prologue, statement code, exit label, epilogue,
-    peepholes) against the instructions the real xcmp emits for the same function / procedure with locals and
-    formals, compared up to a consistent renaming of the labels"""
+    peepholes) against the instructions the real xcmp emits for the same procedures and functions (frag_program: several
+    per program, calling each other), compared up to a consistent renaming of the labels"""
     import re
     rng = ck.rng
     d = tempfile.mkdtemp(dir=scr)
-    agree = outside = 0
-    narrf = narra = nget = nleft = nfirst = 0
+    agree = outside = nprocs = 0
+    cnt = {'array_formals': 0, 'array_actuals': 0, 'get': 0, 'call_or_get_as_left_operand': 0, 'call_in_first_actual': 0,
+           'three_or_more_actuals_or_two_arrays': 0, 'recursive': 0, 'frame_of_16_words_or_more': 0, 'pool_constants': 0, 'calls_of_generated_procedures': 0}
     sample = None
     for i in range(n):
-        kind = rng.choice(['func', 'proc'])
-        forms, nform, acts = frag_formals(rng)
-        body = [frag_stmt(rng, rng.randint(0, 3)) for _ in range(rng.randint(1, 4))]
-        if kind == 'func' or rng.random() < 0.3:
-            body.append(('return', frag_expr(rng, rng.randint(0, 4), rng.choice(['int', 'int', 'bool']))))
-        nloc = rng.choice([0, 1, 2, 2, 3])
-        locs = [('var', 'l0'), ('var', 'l1'), ('var', 'l2')][:nloc]
-        if nloc < 2:
-            # l0 / l1 are then globals
-            pass
-        glob = [('val', 'put', ('num', 1)), ('val', 'get', ('num', 2)), ('var', 'g0'), ('array', 'a0', ('num', 8)), ('var', 'g1'), ('array', 'a1', ('num', 3))] + [('var', 'l%d' % k) for k in range(nloc, 2)]
-        glob += [('var', 'p%d' % k) for k in range(nform, 2)]
-        call = ('call', 'f', acts)
-        prog = {'globals': glob,
-                'procs': [{'kind': kind, 'name': 'f', 'formals': forms, 'locals': locs, 'body': ('seq', body) if len(body) > 1 or rng.random() < 0.5 else body[0]}] +
-                         FRAG_HELPERS +
-                         [{'kind': 'proc', 'name': 'main', 'formals': [], 'locals': [],
-                           'body': ('seq', [('assign', 'g0', ('num', 1)), ('assign', 'g1', ('num', 2)),
-                                            ('sys', 0, [call]) if kind == 'func' else call])}]}
+        prog, gen = frag_program(rng)
+        glob = prog['globals']
         src = xcommon.to_x(prog)
         open(os.path.join(d, 'f.x'), 'wb').write(src)
         open(os.path.join(d, 'f.sx'), 'w').write(xcommon.to_sx(prog))
@@ -628,16 +962,6 @@ def fragment_tie(ck, tools, scr, n):
             break
         text = out.decode('latin-1')
         ins = listing_instrs(text)
-        code = None
-        size = 0
-        try:
-            k = ins.index(('FUNC' if kind == 'func' else 'PROC', 'f'))
-            if ins[k + 1:k + 3] == [('LDBM', 1), ('STAI', 0)] and ins[k + 3][0] == 'LDAC' and ins[k + 4] == ('ADD', None) and ins[k + 5] == ('STAM', 1):
-                size = -ins[k + 3][1]
-            end = next(q for q in range(k + 1, len(ins)) if ins[q][0] in ('PROC', 'FUNC') or str(ins[q][1]).startswith('PADDING') or ins[q][0] == 'PADDING')
-            code = [x for x in ins[k + 1:end] if x[0] != '']
-        except (ValueError, StopIteration):
-            pass
         # addresses of the global variables: the DATA words after the stack pointer, in declaration order
         gdecl = [g for g in glob if g[0] in ('var', 'array')]
         gmap = ' '.join(('%s=%d' if g[0] == 'var' else '@%s=%d') % (g[1], 2 + q) for q, g in enumerate(gdecl))
@@ -652,38 +976,84 @@ def fragment_tie(ck, tools, scr, n):
                     if v >= (1 << 31):
                         v -= 1 << 32
                     poolmap.append('#%d=%d' % (v, int(m2.group(1), 16) // 4))
-        if code is None:
-            ck.broken.append('fragment tie: cannot locate f in the listing of %r' % src.decode('latin-1'))
+        codes = []
+        try:
+            for pr in gen:
+                codes.append(listing_proc(ins, pr['kind'], pr['name']))
+        except (ValueError, StopIteration):
+            ck.broken.append('fragment tie: cannot locate the generated procedures in the listing of %r' % src.decode('latin-1'))
             break
-        line = 'f size=%d og=%d %s %s\n' % (size, max(size, 4), gmap, ' '.join(poolmap))
-        rc, out, err = xcommon._run([tools.hv, 'xcg', 'f.sx'], d, line.encode(), 60)
-        mo = out.decode().strip()
-        if rc != 0 or not mo or mo == 'front-error':
-            ck.broken.append('extracted model failed rc=%d %s %s on %r' % (rc, mo, err[-200:], src.decode('latin-1')))
+        lines = ''.join('%s size=%d og=%d %s %s\n' % (pr['name'], size, max(size, 8), gmap, ' '.join(poolmap)) for pr, (code, size) in zip(gen, codes))
+        rc, out, err = xcommon._run([tools.hv, 'xcg', 'f.sx'], d, lines.encode(), 60)
+        mos = out.decode().strip().split('\n')
+        if rc != 0 or len(mos) != len(gen) or 'front-error' in mos:
+            ck.broken.append('extracted model failed rc=%d %s %s on %r' % (rc, mos[:1], err[-200:], src.decode('latin-1')))
             break
-        if mo == 'none':
-            outside += 1
-            continue
-        want = canon_labels(model_code(mo))
-        got = canon_labels(code)
-        if want != got:
-            ck.broken.append('model XCodegenStmt.cproc differs from the real xcmp on %r: model %r, xcmp %r' % (src.decode('latin-1'), want, got))
-            if len(ck.broken) > 3:
-                break
-        else:
+        names = set(q['name'] for q in gen)
+        for pr, (code, size), mo in zip(gen, codes, mos):
+            nprocs += 1
+            if mo == 'none':
+                outside += 1
+                continue
+            want = canon_labels(model_code(mo))
+            got = canon_labels(code)
+            if want != got:
+                ck.broken.append('model XCodegenStmt.cproc differs from the real xcmp on procedure %s of %r: model %r, xcmp %r' % (pr['name'], src.decode('latin-1'), want, got))
+                continue
             agree += 1
-            narrf += any(f[0] == 'array' for f in forms)
-            narra += has_array_actual(body)
-            nget += has_get(body)
-            nleft += has_left_call(body)
-            nfirst += has_call_first_actual(body)
-            if sample is None or len(src) < len(sample['x_source']):
-                sample = {'x_source': src.decode('latin-1'), 'model_and_xcmp': mo}
-    ck.cov['fragment_model_tie'] = {'procedures': n, 'in_fragment_identical_code': agree, 'outside_fragment': outside,
-                                    'identical_with_array_formals': narrf, 'identical_with_array_actuals': narra, 'identical_with_get': nget, 'identical_with_call_or_get_as_left_operand': nleft, 'identical_with_call_in_first_actual': nfirst}
+            body = pr['body']
+            cnt['array_formals'] += any(f[0] == 'array' for f in pr['formals'])
+            cnt['array_actuals'] += has_arr_act(body)
+            cnt['get'] += has_get(body)
+            cnt['call_or_get_as_left_operand'] += has_left_call(body)
+            cnt['call_in_first_actual'] += has_call_first_actual_any(body, names)
+            cnt['three_or_more_actuals_or_two_arrays'] += has_many_actuals(body)
+            cnt['recursive'] += has_self_call(pr)
+            cnt['frame_of_16_words_or_more'] += size >= 16
+            cnt['pool_constants'] += bool(poolmap)
+            cnt['calls_of_generated_procedures'] += calls_any(body, names)
+            if sample is None and len(src) < 1500:
+                sample = {'x_source': src.decode('latin-1'), 'procedure': pr['name'], 'model_and_xcmp': mo}
+        if len(ck.broken) > 3:
+            break
+    ck.cov['fragment_model_tie'] = dict({'programs': n, 'procedures': nprocs, 'in_fragment_identical_code': agree, 'outside_fragment': outside},
+                                        **{'identical_with_' + k: v for k, v in cnt.items()})
     if sample:
         ck.sample(sample)
     shutil.rmtree(d, ignore_errors=True)
+
+
+def has_arr_act(e):
+    """a call with the name of an array (a global array or an array formal) among its actuals"""
+    import re
+    if isinstance(e, tuple):
+        if e[0] == 'call' and isinstance(e[2], list) and any(x[0] == 'var' and re.match(r'^(a\d+|b\d+|big)$', x[1]) for x in e[2]):
+            return True
+        return any(has_arr_act(x) for x in e[1:])
+    if isinstance(e, list):
+        return any(has_arr_act(x) for x in e)
+    return False
+
+
+def calls_any(e, names):
+    if isinstance(e, tuple):
+        if e[0] == 'call' and e[1] in names:
+            return True
+        return any(calls_any(x, names) for x in e[1:])
+    if isinstance(e, list):
+        return any(calls_any(x, names) for x in e)
+    return False
+
+
+def has_call_first_actual_any(e, names):
+    """a procedure-call statement (of a helper or a generated procedure) or a put whose first actual contains a call or get"""
+    if isinstance(e, tuple):
+        if ((e[0] == 'call' and (e[1] in names or e[1] in ('h', 'put'))) or (e[0] == 'sys' and e[1] == 1)) and e[2] and (has_call(e[2][0]) or has_get(e[2][0])):
+            return True
+        return any(has_call_first_actual_any(x, names) for x in e[1:])
+    if isinstance(e, list):
+        return any(has_call_first_actual_any(x, names) for x in e)
+    return False
 
 
 def aout_words(path):
@@ -729,26 +1099,16 @@ def program_tie(ck, tools, scr, n):
              'validated_image_ok': 0, 'validated_image_none': 0, 'isa_runs_compared': 0, 'lowered_and_optimised_image_show_the_same': 0,
              'byte_identical_with_array_formals': 0, 'byte_identical_with_array_actuals': 0,
              'well_defined': 0, 'well_defined_lowered_image_shows_the_spec': 0, 'ill_defined': 0, 'ill_defined_images_differ': 0,
-             'programs_reading_input': 0, 'well_defined_consuming_input': 0, 'byte_identical_with_call_or_get_as_left_operand': 0, 'byte_identical_with_call_in_first_actual': 0}
+             'programs_reading_input': 0, 'well_defined_consuming_input': 0, 'byte_identical_with_call_or_get_as_left_operand': 0, 'byte_identical_with_call_in_first_actual': 0,
+             'byte_identical_with_three_or_more_actuals_or_two_arrays': 0, 'byte_identical_with_recursion': 0,
+             'byte_identical_with_frame_of_16_words_or_more': 0, 'byte_identical_with_large_array': 0}
     reasons = {}
     for i in range(n):
-        kind = rng.choice(['func', 'proc', 'proc'])
-        forms, nform, acts = frag_formals(rng)
-        body = [frag_stmt(rng, rng.randint(0, 3)) for _ in range(rng.randint(1, 4))]
-        if kind == 'func':
-            body.append(('return', frag_expr(rng, rng.randint(0, 3), rng.choice(['int', 'int', 'bool']))))
-        nloc = rng.choice([0, 1, 2, 2, 3])
-        locs = [('var', 'l0'), ('var', 'l1'), ('var', 'l2')][:nloc]
-        glob = [('val', 'put', ('num', 1)), ('val', 'get', ('num', 2)), ('var', 'g0'), ('array', 'a0', ('num', 8)), ('var', 'g1'), ('array', 'a1', ('num', 3))] + [('var', 'l%d' % k) for k in range(nloc, 2)]
-        glob += [('var', 'p%d' % k) for k in range(nform, 2)]
-        call = ('call', 'f', acts)
-        procs = [{'kind': kind, 'name': 'f', 'formals': forms, 'locals': locs, 'body': ('seq', body)}] + FRAG_HELPERS + [
-                 {'kind': 'proc', 'name': 'main', 'formals': [], 'locals': [],
-                  'body': ('seq', [('assign', 'g0', ('num', 1)), ('assign', 'g1', ('num', 2)),
-                                   ('assign', 'g1', call) if kind == 'func' else call,
-                                   ('sys', 1, [('bin', '+', ('var', 'g0'), ('num', 48)), ('num', 0)]),
-                                   ('assign', 'g1', ('call', 'get', [('num', 0)])), ('sys', 1, [('var', 'g1'), ('num', 0)])])}]
-        prog = {'globals': glob, 'procs': procs}
+        prog, gen = frag_program(rng)
+        procs = prog['procs']
+        body = [pr['body'] for pr in gen]
+        forms = [f for pr in gen for f in pr['formals']]
+        gnames = set(pr['name'] for pr in gen)
         src = xcommon.to_x(prog)
         open(os.path.join(d, 'p.x'), 'wb').write(src)
         open(os.path.join(d, 'p.sx'), 'w').write(xcommon.to_sx(prog))
@@ -791,9 +1151,13 @@ def program_tie(ck, tools, scr, n):
         if model == real:
             stats['byte_identical_to_xcmp'] += 1
             stats['byte_identical_with_array_formals'] += any(f[0] == 'array' for f in forms)
-            stats['byte_identical_with_array_actuals'] += has_array_actual(body)
+            stats['byte_identical_with_array_actuals'] += has_arr_act(body)
             stats['byte_identical_with_call_or_get_as_left_operand'] += has_left_call(body)
-            stats['byte_identical_with_call_in_first_actual'] += has_call_first_actual(body)
+            stats['byte_identical_with_call_in_first_actual'] += has_call_first_actual_any(body, gnames)
+            stats['byte_identical_with_three_or_more_actuals_or_two_arrays'] += has_many_actuals(body)
+            stats['byte_identical_with_recursion'] += any(has_self_call(pr) for pr in gen)
+            stats['byte_identical_with_frame_of_16_words_or_more'] += any(int(fl.split()[1]) >= 16 for fl in frames)
+            stats['byte_identical_with_large_array'] += any(g[0] == 'array' and g[2][1] >= 1000 for g in prog['globals'])
         else:
             stats['differing'] += 1
             why = 'length %d vs %d' % (len(model), len(real)) if len(model) != len(real) else 'same length, words differ'
@@ -983,7 +1347,9 @@ def main():
                       'validation of the image; its input is the output of XConstProp.front; frame numbers and the order of the constant pool are parameters read off xcmp\'s listing); '
                       'and from the SOURCE program (C01_source_program_partial): composed with the front-end theorem of C07 (CreateSymbols, ConstProp, OptimiseExpr preserve XSem.run under the decidable '
                       'side conditions names_ok and front_swap_safe, within a quarter of the default fuel), shown non-vacuous on the demo\'s source itself; '
-                      'the model is tied to the real xcmp on generated procedures (fragment_model_tie: identical code up to label names, incl. prologue, epilogue and peepholes) '
+                      'the model is tied to the real xcmp on generated procedures (fragment_model_tie: identical code up to label names, incl. prologue, epilogue and peepholes; whole programs from frag_program: '
+                      'several generated procedures and functions calling each other and themselves, 0..4 formals mixing val and array, 0..20 locals, random global declaration lists with vals between vars, '
+                      '1..4 arrays of length 1..40 and occasionally one large array, constants from the corner set up to +-2^31), on a sample of the judged programs of the main run (model_compile_on_judged_programs) '
                       'and on generated whole programs (program_model_tie: the image words of model_compile with the peephole pass are compared with the real binary; the validated '
                       'lowered image of the same program must exist, and both images are run on the extracted ISA: where XSem says Behaviour both must show exactly it; '
                       'where XSem says the program is ill-defined nothing is claimed and a difference between the two images is only counted); '
@@ -1044,6 +1410,16 @@ def summarise(ck, results, pool, kinds=None):
             for f in r['features']:
                 feats[f] = feats.get(f, 0) + 1
     counts = report(ck, results, pool, kinds)
+    ms = [r.get('model_share') for r in results if r.get('model_share') is not None]
+    if ms:
+        ck.cov['model_compile_on_judged_programs'] = {
+            'sampled_judged_programs': len(ms), 'inside_the_models_fragment': sum(1 for x in ms if x != 'outside'),
+            'of_those_image_identical_to_xcmp_binary': sum(1 for x in ms if x == 'identical'),
+            'note': 'corpus, directed and shipped programs and every sixth generated program that XSem judges well-defined: extracted model_compile '
+                    '(peephole pass on; frame sizes and pool read off xcmp -S) returns an image iff the program is inside the proved fragment'}
+        for r in results:
+            if r.get('model_share') == 'differs':
+                ck.broken.append('XCodegenProgram.model_compile (opt) differs from the binary of the real xcmp on the judged program %s' % r['name'])
     ck.cov['rejected_because_program_and_arrays_exceed_the_memory'] = sorted(r['name'] for r in results if r.get('capacity_rejected'))
     import xfrontcommon
     nx, samex = xfrontcommon.reader_report(ck, results)      # fills coverage['xfront_reader_crosscheck']; a disagreement is a broken tie
